@@ -360,6 +360,7 @@ type Case struct {
 	Real   int    `json:"real"`
 	Refs   []int  `json:"refs"`
 	Calls  []Call `json:"calls"`
+	Offset int    `json:"offset"`
 }
 
 // Call is one step of a history case.
@@ -490,6 +491,14 @@ func Run(out *vt.W, c Case) {
 			}
 			w.view(out)
 		}
+	case "gcall": // one SetFeatures call on a gene holding the features before (an edge of the gene machine)
+		calls := []Call{{"setfeatures", c.Xs}}
+		if len(c.Before) > 0 {
+			calls = []Call{{"setfeatures", c.Before}, {"setfeatures", c.Xs}}
+		}
+		geneHistory(out, 1000+len(c.Before)+len(c.Xs), calls)
+	case "ghist": // a history of SetFeatures calls on a gene at the given offset
+		geneHistory(out, c.Offset, c.Calls)
 	case "utr": // a coding transcript of the given length under the given nesting chain
 		if len(c.Chain) == 0 || c.Chain[0][2] == 0 {
 			return // a CodingTranscript always is an Orienter
